@@ -130,8 +130,15 @@ IpaHalfProgs == {[kind |-> "ipa", label |-> "p", poly |-> pl, point |-> pt, resu
 (* the zero polynomial (identity commitment, all-identity proof, zero final scalar) and a constant: every result class and every proof change *)
 IpaZeroProgs == {[kind |-> "ipa", label |-> "p", poly |-> pl, point |-> pt, results |-> <<"correct", "+1", "-1", "rnd">> \o PfPerturb] :
                    pl \in {PolyTab[3], PolyTab[6]}, pt \in (IF Quick THEN {"3", "256"} ELSE {"0", "3", "255", "256", "r-1", "rnd1"})}
+(* the IPA programs with small multiproof programs in between (one process, one configuration: whatever the multiproof calls leave behind
+   - pooled vectors, caches - must not change an IPA opening, and the reverse) *)
+IpaSeq == SetToSeq(IpaProgs \cup IpaHalfProgs \cup IpaZeroProgs)
+MixZs == << <<0>>, <<255, 255>>, <<5, 200, 5>>, <<0, 1, 254, 255>>, <<77>>, <<128, 3>> >>
+MixMp(k) == [kind |-> "mp", label |-> Labels[(k % Len(Labels)) + 1], polys |-> PolyTab,
+             ops |-> Ops(MixZs[(k % Len(MixZs)) + 1], PolyAssign(Len(MixZs[(k % Len(MixZs)) + 1]), "cycle"), FALSE, "mixed"), arrival |-> "", perturb |-> <<>>]
+IpaMixed == [k \in 1 .. (Len(IpaSeq) + Len(IpaSeq) \div 3) |-> IF k % 4 = 0 THEN MixMp(k \div 4) ELSE IpaSeq[k - k \div 4]]
 Progs == IF Part \in {"mp_honest", "mp_cpu", "mp_perturb", "mp_arrival"} THEN MpProgs
-         ELSE IF Part \in {"ipa", "ipa_few"} THEN SetToSeq(IpaProgs \cup IpaHalfProgs \cup IpaZeroProgs)
+         ELSE IF Part \in {"ipa", "ipa_few"} THEN IpaMixed
          ELSE IF Part = "codec" THEN SetToSeq(ReadProgs \cup ScalarPatProgs \cup WriteProgs)
          ELSE MpProgs \o SetToSeq(IpaProgs) \o SetToSeq(ReadProgs \cup WriteProgs)
 VARIABLE done
